@@ -203,9 +203,11 @@ theorem step_masgK (h : Q ρ t u) (j i : Nat) :
     | none => exact .same h _
     | some hp =>
       simp only
-      have h1 := disconnect_sim h hold
-      exact .ok _ ρ (h1.q.setK ((h.K.set i .none).set j hp)) (Step.of_eq h1.nk h1.np)
-        (h1.fr.trans (Fr.of_eq rfl rfl))
+      split
+      · exact .same h _
+      · have h1 := disconnect_sim h hold
+        exact .ok _ ρ (h1.q.setK ((h.K.set i .none).set j hp)) (Step.of_eq h1.nk h1.np)
+          (h1.fr.trans (Fr.of_eq rfl rfl))
 
 theorem step_swapK (h : Q ρ t u) (i j : Nat) :
     StepR ρ t u (Spec.stepSimple t (.swapK i j)) (Spec.stepSimple u (.swapK i j)) := by
